@@ -409,6 +409,11 @@ class Run:
                     self.monitor.append(("C01", f"state {x} available in none of {places}", w, ni))
                     # C05, seen from the dependant: its state was removed (by a worker it was told to fetch from) before it ran
                     for rw, rsts, reached in self.removal_log:
+                        if x in rsts and rw == worker.id:
+                            # ... or by its own worker, before this dependant existed for it (lazy expansion after the producer ran)
+                            self.monitor.append(("C05", f"state removed by {rw} before its own dependant, expanded later, started", w, ni))
+                            self.c01_removed[(w, ni, x)] = "own"
+                            break
                         if x in rsts and rw != worker.id and any(loc.split(":")[0] == rw for loc in locs):
                             if worker.id not in reached:
                                 # the dependant's worker had not even reached the producer: it was not "involved" yet
